@@ -121,6 +121,7 @@ def run_case(case, st=None):
         # dynamic input predicates (decided by the reference run on the input alone, before rdflib is consulted)
         if R.STATS["error_through_function_argument"]: carve.append("T6-error-through-function-argument")
         if R.STATS["error_inside_IN_list"]: carve.append("T7-error-inside-IN-list")
+        if R.STATS["str_of_bnode"]: carve.append("T8-STR-of-blank-node")
         for c in carve: st.setdefault("_known", {})[c] = 1
     if carve:
         st["carved"] = st.get("carved", 0) + 1
